@@ -88,11 +88,13 @@ pub fn parse_files(
         }
         [] => {
             // TODO: Maybe use a flag to ensure that a main component must be present.
+            reports.append(&mut duplicate_definition_reports(&definitions));
             let template_library = TemplateLibrary::new(definitions, file_library);
             ParseResult::Library(Box::new(template_library), reports)
         }
         _ => {
             reports.push(errors::MultipleMainError::produce_report());
+            reports.append(&mut duplicate_definition_reports(&definitions));
             let template_library = TemplateLibrary::new(definitions, file_library);
             ParseResult::Library(Box::new(template_library), reports)
         }
@@ -133,6 +135,25 @@ pub fn parse_files(
         }
     }
     result
+}
+
+/// A template library silently keeps only one of several definitions with the
+/// same name. This function reports the duplicates (as is done when a program
+/// archive is built).
+fn duplicate_definition_reports(
+    definitions: &HashMap<FileID, Vec<program_structure::ast::Definition>>,
+) -> ReportCollection {
+    use program_structure::program_merger::Merger;
+    let mut merger = Merger::new();
+    let mut reports = ReportCollection::new();
+    let mut file_ids: Vec<_> = definitions.keys().collect();
+    file_ids.sort();
+    for file_id in file_ids {
+        if let Err(mut errors) = merger.add_definitions(*file_id, &definitions[file_id]) {
+            reports.append(&mut errors);
+        }
+    }
+    reports
 }
 
 pub fn parse_file(
